@@ -3,12 +3,17 @@ import BppModel.EigenGlue
 C06 (round 2) — the *bookkeeping* of the iteration kernels of EigenValue.h, i.e. the parts of
 `hqr2` and `tql2` that are logic rather than numerical iteration:
 
-  * hqr2  (EigenValue.h "Outer loop over eigenvalue index")
+(line numbers: EigenValue.h of the library tree with the verification hooks, branch fix-C06; the section
+comments quoted are the source's own and identify the places independently of the numbering)
+
+  * hqr2  (EigenValue.h:646-, "Outer loop over eigenvalue index"; one root 671-, two roots 694-,
+           Wilkinson's shift 815-, MATLAB's shift 839-)
       - the running total `exshift` of the exceptional shifts (iter == 10: Wilkinson's ad hoc shift,
         iter == 30: MATLAB's ad hoc shift), subtracted from the diagonal of the active window when taken
         and added back to every eigenvalue when it is deflated ("One root found" / "Two roots found");
       - the formulas of the 2 × 2 deflation (real pair / complex pair);
-  * tql2  (EigenValue.h "Symmetric tridiagonal QL algorithm")
+  * tql2  (EigenValue.h:301-, "Symmetric tridiagonal QL algorithm"; implicit shift 341-,
+           `d_[l] = d_[l] + f` 423, sort 441-)
       - the implicit shift `h` subtracted from `d[l .. n-1]`, accumulated in `f`, added back at
         `d_[l] = d_[l] + f`;
       - the final selection sort of the eigenvalues with their eigenvector columns.
